@@ -181,12 +181,13 @@ Canon(es, layer, d) ==   \* es: ascending sequence of <<k, v>>; d: level of the 
        IN <<[k |-> [j \in 1..n |-> es[idx[j]][1]], v |-> [j \in 1..n |-> es[idx[j]][2]], c |-> [j \in 1..n+1 |-> kid(j)]]>>
 
 \* height = min(highest key layer, floor(log_bf(size-1))), 0 below two entries
+RECURSIVE LogFloorR(_, _, _, _)
+LogFloorR(b, x, h, p) == IF p * b > x THEN h ELSE LogFloorR(b, x, h + 1, p * b)    \* largest h with b^h <= x (x >= 1); no large powers
+LogFloor(b, x) == LogFloorR(b, x, 0, 1)
 RuleHeight(keys, layer, bf) ==
   LET n == Cardinality(keys) IN
   IF n < 2 THEN 0
-  ELSE LET maxL == Max({layer[k] : k \in keys})
-           hs == {h \in 0..maxL : Pow(bf, h) <= n - 1}
-       IN Min({maxL, Max(hs)})
+  ELSE Min({Max({layer[k] : k \in keys}), LogFloor(bf, n - 1)})
 
 (* C09 written directly on a stripped term (no use of Canon).  lvl is the level
    of the node (H at the top), lo/hi the open bounds from the ancestors,
